@@ -45,7 +45,7 @@ fn sign_vote(v: usize, kind: VK, slot: u64, hash: &BlockHash) -> Vote {
     }
 }
 
-fn honest_cert(ck: CK, slot: u64, hash: &BlockHash, prim: &[usize], fall: &[usize], validators: &[alpenglow::ValidatorInfo]) -> Option<Cert> {
+pub fn honest_cert(ck: CK, slot: u64, hash: &BlockHash, prim: &[usize], fall: &[usize], validators: &[alpenglow::ValidatorInfo]) -> Option<Cert> {
     let s = Slot::new(slot);
     let kpv = |v: &usize| (keys::keypair(*v), ValidatorIndex::new(*v as u64));
     Some(match ck {
@@ -250,8 +250,11 @@ pub fn mutate_cert(b: &[u8], other: &[u8]) -> Option<(Vec<u8>, &'static str)> {
             if h.nwords == 0 {
                 return None;
             }
-            let bit = kernel::choose(M, h.nbits.max(1)) as usize;
+            let bit = kernel::choose(M, h.nbits.max(1).min(h.nwords as u64 * 64)) as usize;
             let off = h.words_off + 8 * (bit / 64);
+            if off + 8 > v.len() {
+                return None;
+            }
             let w = wire::get_u64(&v, off) ^ (1 << (bit % 64));
             wire::put_u64(&mut v, off, w);
             "cert-signer-set"
